@@ -80,6 +80,18 @@ func (p *refParser) primary() *Expr {
 		o := Obj(nil, nil)
 		for p.peek() != "}" {
 			key := p.next()
+			if len(key) >= 2 && (key[0] == '"' || key[0] == '\'') {
+				key = key[1 : len(key)-1]
+			}
+			if p.peek() == "," || p.peek() == "}" {
+				// shorthand: {name} is {name: name}
+				o.Keys = append(o.Keys, key)
+				o.Kids = append(o.Kids, Var(key))
+				if p.peek() == "," {
+					p.next()
+				}
+				continue
+			}
 			p.expect(":")
 			o.Keys = append(o.Keys, key)
 			o.Kids = append(o.Kids, p.expr(0))
